@@ -133,6 +133,7 @@ class SimDfuSe:
         self.sched_ops = sched.get('ops', {})
         self.sched_default = sched.get('default', [[], 0])
         self.idle_timeout = sched.get('idle', 0)       # bwPollTimeout on non-busy replies
+        self.latency = list(scen.get('knobs', {}).get('latency') or [])     # per-transfer one-way delays in us, cycled
         self.container = scen.get('knobs', {}).get('container', 'array')
         self.istring = scen.get('knobs', {}).get('istring', 0)
         self.lenient = bool(scen.get('lenient'))
@@ -177,6 +178,19 @@ class SimDfuSe:
 
     # -- the one entry point dfu.py uses ----------------------------------
     def ctrl_transfer(self, bmRequestType, bRequest, wValue=0, wIndex=0, data_or_wLength=None, timeout=None):
+        # the request travels to the device, is answered there, and the answer travels back: the device's clock (busy
+        # windows, requested delays) runs from the moment it answers, the host only learns of it one latency later
+        if not self.latency:
+            return self._transfer(bmRequestType, bRequest, wValue, wIndex, data_or_wLength, timeout)
+        self.clock.flush()
+        lat = self.latency[self.nreq % len(self.latency)]
+        self.clock.now_us += lat
+        try:
+            return self._transfer(bmRequestType, bRequest, wValue, wIndex, data_or_wLength, timeout)
+        finally:
+            self.clock.now_us += lat
+
+    def _transfer(self, bmRequestType, bRequest, wValue=0, wIndex=0, data_or_wLength=None, timeout=None):
         self.clock.flush()
         self.nreq += 1
         if self.nreq > self.step_cap:
